@@ -38,12 +38,13 @@ def frameStep (t : Tokens) (impl : Option String) : StepOut :=
     -- bytes written back: one frame per reply, of the request's type; the legacy greeting on a legacy header
     let written : Bytes := (ms.filterMap (fun m => (replyFor m.2).map (encodeFrame m.1))).flatten ++
       (if e == .errLegacy then [53, 32, 48, 32, 48, 10, 0, 0, 0, 0] else [])
-    let model := s!"msgs={dumpMsgs ms} written={toHex written}"
+    let model := s!"msgs={dumpMsgs ms} written={toHex written} retained={dumpMsgs ms}"
     let fails := match impl with
       | none => []
       | some line =>
         let it := tokenize line
         (if kvGet it "msgs" == some (dumpMsgs ms) then [] else ["C09 serve: the handler saw different messages than the frames present in the stream"]) ++
-        (if kvGet it "written" == some (toHex written) then [] else ["C09 serve: replies are not exactly one frame of the request's type each"])
+        (if kvGet it "written" == some (toHex written) then [] else ["C09 serve: replies are not exactly one frame of the request's type each"]) ++
+        (if kvGet it "retained" == kvGet it "msgs" then [] else ["C04 serve: a message already handed to the handler was overwritten by a later one (shared buffer)"])
     { model := model, specFails := fails }
   | _ => { model := "bad-op" }
